@@ -74,6 +74,8 @@ def amp_loops(fi):
         if not isinstance(n, ast.For):
             continue
         it = resolve(n.iter)
+        while isinstance(it, ast.Call) and dotted(it.func) in ("list", "tuple", "iter") and len(it.args) == 1 and not it.keywords:
+            it = it.args[0]  # a materialised copy of the same sequence of items
         if not any(isinstance(x, ast.Attribute) and U(x) == "self.amplitudes" for x in ast.walk(it)):
             continue
         tgt = n.target
@@ -634,18 +636,22 @@ def check_deriv_2d(ctx: Ctx):
     fv = view(m, fi)
     site = fi.qualname
     loops = amp_loops(fi)
-    if len(loops) != 1:
+    # one loop per series is the same computation as one loop for both (loop fission), provided every loop runs over the same
+    # modes with the same loop variables
+    if len(loops) < 1 or len({(U(l.node.target), U(getattr(l, "seq", l.node.iter)), U(l.start) if l.start is not None else "") for l in loops}) != 1:
         ctx.undecided("DERIV", site, fi, f"{len(loops)} amplitude loops")
         return
     lp = loops[0]
+    loop_nodes_all = [l.node for l in loops]
     # names accumulated in the loop
     ups: dict = {}
-    for s in ast.walk(lp.node):
-        if isinstance(s, ast.AugAssign) and isinstance(s.target, ast.Name) and isinstance(s.op, (ast.Add, ast.Sub)):
-            ups.setdefault(s.target.id, []).append(s)
+    for ln_ in loop_nodes_all:
+        for s in ast.walk(ln_):
+            if isinstance(s, ast.AugAssign) and isinstance(s.target, ast.Name) and isinstance(s.op, (ast.Add, ast.Sub)):
+                ups.setdefault(s.target.id, []).append(s)
     # loop-local temporaries (nφ = n * φs) are substituted into the updates first
     tmp_defs: dict = {}
-    for s_ in ast.walk(lp.node):
+    for s_ in [x for ln_ in loop_nodes_all for x in ast.walk(ln_)]:
         if isinstance(s_, ast.Assign) and len(s_.targets) == 1 and isinstance(s_.targets[0], ast.Name) and s_.targets[0].id not in ups and s_.targets[0].id != lp.idx:
             tmp_defs.setdefault(s_.targets[0].id, []).append(s_.value)
     tmp_env = {k: v[0] for k, v in tmp_defs.items() if len(v) == 1}
@@ -700,7 +706,8 @@ def check_deriv_2d(ctx: Ctx):
         ctx.hold("DERIV", site + ":series", (fi, lp.node), f"`{df}` accumulates d/d{var} of every term accumulated in `{f}`")
         # initial values: f starts at 1 (unperturbed circle), df at 0
         for nm, want in ((f, 1), (df, 0)):
-            d0 = [e for e in fv.defs_reaching(nm, fv.node_of(lp.node)) if e.stmt is not None and not in_loop(lp.node, e.stmt)]
+            first_loop = [ln_ for ln_ in loop_nodes_all if any(isinstance(x, ast.AugAssign) and isinstance(x.target, ast.Name) and x.target.id == nm for x in ast.walk(ln_))][0]
+            d0 = [e for e in fv.defs_reaching(nm, fv.node_of(first_loop)) if e.stmt is not None and not any(in_loop(ln_, e.stmt) for ln_ in loop_nodes_all)]
             v = fv.value_of_def(d0[0], nm) if len(d0) == 1 else None
             fn = (dotted(v.func) or "").split(".")[-1] if isinstance(v, ast.Call) else ""
             ok = fn in (("ones", "ones_like") if want == 1 else ("zeros", "zeros_like"))
